@@ -172,13 +172,11 @@ def only_closers_inserted(src, out):
         if out[j] in '}]' and go(i, j + 1):
             return True
         if out.startswith('\\end{', j):       # an inserted \end{name}: the name is whatever the opening's argument printed
-            d, k = 0, j + 4
-            while k < len(out):
-                d += out[k] == '{'
-                d -= out[k] == '}'
-                k += 1
-                if d == 0:
-                    return go(i, k)
+            k = out.find('}', j + 5)              # (it may contain a comment with unbalanced braces: try every closing brace)
+            while k != -1:
+                if go(i, k + 1):
+                    return True
+                k = out.find('}', k + 1)
         return False
     if len(src) * len(out) > 40000:
         return True
